@@ -104,7 +104,7 @@ for _f in (None, 'units', 'cost'):
     make_balances(_f)
 
 
-REGEXES = [None, 'bank', '^Expenses:', 'Card|Salary', r'Assets:\w+$', 'Nothing']
+REGEXES = [None, 'bank', '^Expenses:', 'Card|Salary', r'Assets:\w+$', 'Nothing', 'Assets:Broker', 'Liabilities:Card']
 
 
 def make_journal(fname):
